@@ -146,6 +146,30 @@ def run(ctx):
                 ctx.violation(dict(kind='later-parse-touches-earlier-dump', first=os.path.basename(fa), later=os.path.basename(later), events=bad[:10], dump_changed=after != before,
                                    how='ReplayParser(first, raw_data_output=f).get_info(); then ReplayParser(later).get_info() under the audit hook: it may open only its replay and the bundle, and f keeps its content'))
                 break
+        # (1c) the reader's own dump option (ReplayReader(path, dump_binary=True)): the dump it writes is "<replay file name>.hex" in the working
+        # directory - a name the CALLER chose; header fields of the replay (dates, vehicle and map names with path separators) must not steer it
+        from replay_unpack.replay_reader import ReplayReader as RR0
+        hostile = {'clientVersionFromXml': '0,9,4,0', 'dateTime': os.path.join(tmp, 'owned', 'x'), 'playerVehicle': '../../pv', 'mapDisplayName': '/tmp/verif-c18-map',
+                   'playerName': os.path.join(tmp, 'owned', 'y'), 'mapName': '../m', 'name': os.path.join(tmp, 'owned', 'z')}
+        os.makedirs(os.path.join(tmp, 'owned')); cwd0 = os.getcwd(); wd = os.path.join(tmp, 'wd'); os.makedirs(wd)
+        for nm in ('temp.wowsreplay', 'temp.wotreplay', 'battle.wowsreplay'):
+            p = os.path.join(wd, nm); battle.write_replay(p, nm.rsplit('.', 1)[1], hostile, b'\x00' * 24)
+            del EVENTS[:]; os.chdir(wd); _hook_on[0] = True
+            try:
+                try: RR0(p, dump_binary=True).get_replay_data()
+                except Exception: pass
+            finally:
+                _hook_on[0] = False
+                judged = judge(p, list(EVENTS), [bundled])          # (relative paths of the events are resolved against the working directory of the call)
+                os.chdir(cwd0)
+            ctx.case(('reader-dump', nm))
+            allowed = os.path.realpath(os.path.join(wd, nm + '.hex'))
+            bad = [e for e in judged if not (e[0] == 'open' and os.path.realpath(e[1]) == allowed)]
+            stray = [os.path.join(dp, f) for dp, _, fs in os.walk(tmp) for f in fs if dp.startswith(os.path.join(tmp, 'owned'))] + [f for f in os.listdir(wd) if f not in ('temp.wowsreplay', 'temp.wotreplay', 'battle.wowsreplay') and not f.endswith('.hex')]
+            if bad or stray:
+                ctx.violation(dict(kind='reader-dump-steered-by-file', replay_name=nm, header=hostile, events=bad[:6], files_written_elsewhere=stray[:6],
+                                   how='ReplayReader(path, dump_binary=True).get_replay_data() in a scratch working directory, header fields holding paths: only <replay name>.hex in the working directory may be written'))
+                break
         # (2) hostile pickles in every pickled argument
         wv = battle.wows_versions(); picks = wv if not q else battle.representative_versions(9)[::2]
         orig_dumps = pickle.dumps
@@ -246,6 +270,11 @@ def run(ctx):
             for fn in ('battle_controller.py', 'constants.py', 'players_info.py'): open(os.path.join(pkgroot, name, fn), 'w').write('open(%r, "a").write("x")\n' % marker)
         crafted += [('wowsreplay', 'clientVersionFromXml', v) for v in (pkgroot + '/extras, 1, 2, 3', pkgroot + '/extras,1,2,3', pkgroot + '/x,9,4,1', '0,9,4,/../../../../../../../../' + pkgroot.lstrip('/') + '/x')]
         crafted += [('wowpreplay', 'clientVersion', 'World of Warplanes ' + pkgroot + '/extras.1.2.3'), ('wotreplay', 'clientVersionFromXml', 'World\xa0of\xa0Tanks v.' + pkgroot + '/extras.1.2 #1')]
+        # ... and the BARE absolute path of a directory that holds definitions (no dots, no blanks, no commas: it survives every normalisation as ONE
+        # version component; os.path.join(<bundle>/versions, <absolute path>) is that path)
+        crafted += [('wowpreplay', 'clientVersion', 'World of Warplanes ' + evil), ('wowpreplay', 'clientVersion', 'World of Warplanes ' + evil + '.'),
+                    ('wotreplay', 'clientVersionFromXml', 'World\xa0of\xa0Tanks v.' + evil), ('wotreplay', 'clientVersionFromXml', 'World of Tanks v.' + evil + ' #1'),
+                    ('wowsreplay', 'clientVersionFromXml', evil), ('wowsreplay', 'clientVersionFromXml', evil + ',')]
         for ext, key, vs in crafted:
             p = os.path.join(tmp, 'crafted.' + ext); battle.write_replay(p, ext, {key: vs}, b'')
             out, ev, marks = audited_parse(p)
